@@ -416,7 +416,380 @@ mut("link-weak-writer-outside", "break", ["C09"], "Weak method writes an AtomicW
     #[inline]
     pub(crate) fn increment_weak(&self) {""")], ["LINK-WRITERS"])
 
+# ---------------------------------------------------------------- EBR
+G = "src/ebr_impl/guard.rs"
+D = "src/ebr_impl/deferred.rs"
+Q = "src/ebr_impl/sync/queue.rs"
+L = "src/ebr_impl/sync/list.rs"
+DF = "src/ebr_impl/default.rs"
+EPF = "src/ebr_impl/epoch.rs"
+PT = "src/ebr_impl/pointers.rs"
+
+mut("ebr-pin-no-validate", "break", ["C13", "C14"], "pin's validation loop replaced by break",
+    [ed(I, """                if new_epoch.value() == self.global().epoch.load(Ordering::Acquire).value() {
+                    break new_epoch;
+                }
+                self.epoch.store(Epoch::starting(), Ordering::Release);""", """                break new_epoch;""")],
+    ["EBR-PIN-VALIDATE"])
+mut("ebr-pin-store-without-fence", "break", ["C13"], "pin publishes with a plain store and no fence",
+    [ed(I, """                    let current = Epoch::starting();
+                    let res = self.epoch.compare_exchange(
+                        current,
+                        new_epoch,
+                        Ordering::SeqCst,
+                        Ordering::SeqCst,
+                    );
+                    debug_assert!(res.is_ok(), "participant was expected to be unpinned");""",
+        """                    self.epoch.store(new_epoch, Ordering::Relaxed);""")], ["EBR-PIN-VALIDATE"])
+mut("ebr-pin-publish-unpinned", "break", ["C13"], "pin publishes the unpinned epoch",
+    [ed(I, "let new_epoch = global_epoch.pinned();", "let new_epoch = global_epoch;")], ["EBR-PIN-VALIDATE"])
+mut("ebr-advance-ignores-stall", "break", ["C18", "C13"], "try_advance ignores a stalled traversal",
+    [ed(I, """                Err(IterError::Stalled) => {
+                    // A concurrent thread stalled this iteration. That thread might also try to
+                    // advance the epoch, in which case we leave the job to it. Otherwise, the
+                    // epoch will not be advanced.
+                    return global_epoch;
+                }""", """                Err(IterError::Stalled) => {}""")], ["EBR-ADVANCE"])
+mut("ebr-advance-ignores-lagging", "break", ["C13", "C14"], "try_advance does not refuse on a lagging participant",
+    [ed(I, """                    if local_epoch.is_pinned() && local_epoch.unpinned() != global_epoch {
+                        return global_epoch;
+                    }""", """                    let _ = local_epoch;""")], ["EBR-ADVANCE"])
+mut("ebr-advance-no-fence", "break", ["C13"], "try_advance without the SeqCst fence",
+    [ed(I, """        let global_epoch = self.epoch.load(Ordering::Relaxed);
+        atomic::fence(Ordering::SeqCst);""", """        let global_epoch = self.epoch.load(Ordering::Relaxed);""")],
+    ["EBR-ADVANCE"])
+mut("ebr-advance-by-two", "break", ["C14"], "try_advance advances by two epochs",
+    [ed(I, "let new_epoch = global_epoch.successor();", "let new_epoch = global_epoch.successor().successor();")],
+    ["EBR-ADVANCE"])
+mut("ebr-advance-compares-pinned", "break", ["C13"], "try_advance compares the pinned epoch (always different)",
+    [ed(I, "local_epoch.is_pinned() && local_epoch.unpinned() != global_epoch", "local_epoch.is_pinned() && local_epoch != global_epoch.successor()")],
+    ["EBR-ADVANCE"])
+mut("ebr-expiry-1", "break", ["C13"], "bags expire after one epoch",
+    [ed(I, "global_epoch.wrapping_sub(self.epoch) >= 3", "global_epoch.wrapping_sub(self.epoch) >= 1")], ["EBR-EXPIRY"])
+mut("ebr-collect-unconditional-pop", "break", ["C13"], "collect pops without the expiry predicate",
+    [ed(I, "|sealed_bag: &SealedBag| sealed_bag.is_expired(self.epoch.load(Ordering::Relaxed)),",
+        "|sealed_bag: &SealedBag| { let _ = sealed_bag; true },")], ["EBR-EXPIRY"])
+mut("ebr-seal-stale-epoch", "break", ["C13"], "push_bag reads the epoch before taking the bag",
+    [ed(I, """        let bag = replace(bag, Bag::new());
+
+        atomic::fence(Ordering::SeqCst);
+
+        let epoch = self.epoch.load(Ordering::Relaxed);""", """        let epoch = self.epoch.load(Ordering::Relaxed);
+        let bag = replace(bag, Bag::new());
+
+        atomic::fence(Ordering::SeqCst);
+""")], ["EBR-SEAL-FRESH"])
+mut("ebr-collect-nested", "break", ["C02", "C13", "C16"], "unpin collects for nested guards too",
+    [ed(I, "if guard_count == 1 && !self.collecting.get() {", "if !self.collecting.get() {")], ["EBR-COLLECT-OUTERMOST"])
+mut("ebr-unpin-clears-always", "break", ["C16", "C13"], "unpin clears the local epoch for nested guards",
+    [ed(I, """        self.guard_count.set(guard_count - 1);
+        if guard_count == 1 {
+            self.epoch.store(Epoch::starting(), Ordering::Release);
+""", """        self.guard_count.set(guard_count - 1);
+        self.epoch.store(Epoch::starting(), Ordering::Release);
+        if guard_count == 1 {
+""")], ["EBR-GUARD-COUNT"])
+mut("ebr-guard-drop-no-unpin", "break", ["C16"], "Guard::drop forgets to unpin", [
+    ed(G, """impl Drop for Guard {
+    #[inline]
+    fn drop(&mut self) {
+        if let Some(local) = unsafe { self.local.as_ref() } {
+            local.unpin();
+        }
+    }
+}""", """impl Drop for Guard {
+    #[inline]
+    fn drop(&mut self) {
+        if let Some(local) = unsafe { self.local.as_ref() } {
+            let _ = local;
+        }
+    }
+}""")], ["EBR-GUARD-COUNT"])
+mut("ebr-repin-no-handle", "break", ["C16"], "repin without acquire/release handle and without re-pin order",
+    [ed(I, """        self.acquire_handle();
+        self.unpin();
+        compiler_fence(Ordering::SeqCst);
+        forget(self.pin());
+        self.release_handle();""", """        forget(self.pin());
+        self.unpin();""")], ["EBR-REACTIVATE"])
+mut("ebr-reactivate-after-no-scopeguard", "break", ["C16"], "reactivate_after re-pins after f without a scope guard",
+    [ed(G, """        // Ensure the Guard is re-pinned even if the function panics
+        defer! {
+            if let Some(local) = unsafe { self.local.as_ref() } {
+                mem::forget(local.pin());
+                local.release_handle();
+            }
+        }
+
+        f()""", """        let r = f();
+        if let Some(local) = unsafe { self.local.as_ref() } {
+            mem::forget(local.pin());
+            local.release_handle();
+        }
+        r""")], ["EBR-REACTIVATE"])
+mut("ebr-reactivate-shared-ref", "break", ["C02", "C16"], "reactivate takes &self", [
+    ed(G, "pub fn reactivate(&mut self) {", "pub fn reactivate(&self) {")], ["TY-SIG", "TY-REACTIVATE-MUT"])
+mut("ebr-finalize-no-handoff", "break", ["C15", "C20"], "finalize does not push the local bag",
+    [ed(I, """            let guard = &self.pin();
+            self.push_to_global(guard);""", """            let guard = &self.pin();
+            let _ = guard;""")], ["EBR-FINALIZE-HANDOFF"])
+mut("ebr-defer-drops-rejected", "break", ["C15"], "defer drops the Deferred rejected by a full bag",
+    [ed(I, """        while let Err(d) = bag.try_push(deferred) {
+            self.global().push_bag(bag, guard);
+            deferred = d;
+            self.schedule_collection();
+        }""", """        if let Err(d) = bag.try_push(deferred) {
+            self.global().push_bag(bag, guard);
+            deferred = d;
+            let _ = &mut deferred;
+            self.schedule_collection();
+        }""")], ["EBR-FINALIZE-HANDOFF", "EBR-NO-FORGET"])
+mut("ebr-forget-bag", "break", ["C15"], "flush forgets the sealed bag instead of pushing", [
+    ed(I, """        let epoch = self.epoch.load(Ordering::Relaxed);
+        self.queue.push(bag.seal(epoch), guard);""", """        let epoch = self.epoch.load(Ordering::Relaxed);
+        if bag.is_empty() {
+            forget(bag.seal(epoch));
+        } else {
+            self.queue.push(bag.seal(epoch), guard);
+        }""")], ["EBR-NO-FORGET", "EBR-SEAL-FRESH"])
+mut("ebr-deferred-no-align-test", "break", ["C15"], "Deferred::new drops the alignment test",
+    [ed(D, "if size <= mem::size_of::<Data>() && align <= mem::align_of::<Data>() {", "if size <= mem::size_of::<Data>() { let _ = align;")],
+    ["EBR-DEFERRED-INLINE"])
+mut("ebr-deferred-clone", "break", ["C15"], "Deferred derives Clone",
+    [ed(D, "pub(crate) struct Deferred {", "#[derive(Clone)]\npub(crate) struct Deferred {")], ["EBR-NO-FORGET"])
+mut("ebr-tls-with", "break", ["C20"], "with_handle uses LocalKey::with",
+    [ed(DF, """    HANDLE
+        .try_with(|h| f(h))
+        .unwrap_or_else(|_| f(&collector().register()))""", """    HANDLE.with(|h| f(h))""")], ["EBR-TLS"])
+mut("ebr-list-finalize-on-fail", "break", ["C18"], "iterator finalizes the entry even when its unlink CAS failed",
+    [ed(L, """                    Err(curr) => {
+                        // `curr` is the current value of `self.pred`.
+                        curr
+                    }""", """                    Err(curr) => {
+                        unsafe {
+                            C::finalize(self.curr.deref(), self.guard);
+                        }
+                        curr
+                    }""")], ["EBR-LIST"])
+mut("ebr-list-no-restart", "break", ["C18"], "iterator continues past a marked predecessor",
+    [ed(L, """                if succ.tag() != 0 {
+                    self.pred = self.head;
+                    self.curr = self.head.load(Acquire, self.guard);
+
+                    return Some(Err(IterError::Stalled));
+                }""", """                let succ = succ.with_tag(0);""")], ["EBR-LIST"])
+mut("ebr-queue-popif-reload", "break", ["C17"], "pop_if re-loads next after the predicate",
+    [ed(Q, """            Some(n) if condition(unsafe { &*n.data.as_ptr() }) => unsafe {
+                self.head
+                    .compare_exchange(head, next, Release, Relaxed, guard)""", """            Some(n) if condition(unsafe { &*n.data.as_ptr() }) => unsafe {
+                let head = self.head.load(Acquire, guard);
+                let next = head.deref().next.load(Acquire, guard);
+                self.head
+                    .compare_exchange(head, next, Release, Relaxed, guard)""")], ["EBR-QUEUE"])
+mut("ebr-queue-popif-no-predicate", "break", ["C17", "C13"], "pop_if ignores the predicate",
+    [ed(Q, "Some(n) if condition(unsafe { &*n.data.as_ptr() }) => unsafe {", "Some(n) if { let _ = &condition; true } => unsafe {")],
+    ["EBR-QUEUE"])
+mut("ebr-queue-retire-on-fail", "break", ["C15", "C17"], "pops retire the head node even when the CAS failed",
+    [ed(Q, ".map_err(|_| ())", ".map_err(|_| { guard.defer_destroy(head); })", count=2)], ["EBR-QUEUE"])
+mut("ebr-global-epoch-writer", "break", ["C14"], "collect bumps the global epoch itself",
+    [ed(I, """        self.try_advance(guard);
+
+        debug_assert!(""", """        self.try_advance(guard);
+        self.epoch.store(self.epoch.load(Ordering::Relaxed).successor(), Ordering::Release);
+
+        debug_assert!(""")], ["EBR-EPOCH-WRITERS"])
+mut("ebr-repin-stale", "break", ["C14"], "repin_without_collect stores the successor of its own epoch",
+    [ed(I, """            self.epoch.store(global_epoch, Ordering::Release);
+        }
+        global_epoch""", """            self.epoch.store(epoch.successor(), Ordering::Release);
+        }
+        global_epoch""")], ["EBR-EPOCH-WRITERS"])
+mut("ebr-epoch-successor-1", "break", ["C14"], "successor adds 1 (flips the pin bit)",
+    [ed(EPF, "data: self.data.wrapping_add(2),", "data: self.data.wrapping_add(1),")], ["EPOCH-ARITH"])
+mut("ebr-epoch-wrapping-sub-pinbit", "break", ["C14", "C13"], "wrapping_sub no longer masks the pin bit before the shift is applied to a sum",
+    [ed(EPF, "self.data.wrapping_sub(rhs.data & !1) as isize >> 1", "(self.data.wrapping_sub(rhs.data) as isize + 1) >> 1")],
+    ["EPOCH-ARITH"])
+
+# ---------------------------------------------------------------- bits / arithmetic
+mut("bit-low-bits-off-by-one", "break", ["C11"], "low_bits mask one bit too wide",
+    [ed(PT, "(1 << align_of::<T>().trailing_zeros()) - 1", "(2 << align_of::<T>().trailing_zeros()) - 1")], ["BIT-TAGGED"])
+mut("bit-as-raw-keeps-epoch", "break", ["C11"], "as_raw does not clear the epoch bits",
+    [ed(PT, "(ptr & !low_bits::<T>() & !Self::high_bits()) as *mut T", "(ptr & !low_bits::<T>()) as *mut T")], ["BIT-TAGGED"])
+mut("bit-ptr-eq-raw", "break", ["C11", "C08"], "Tagged::ptr_eq compares raw words",
+    [ed(PT, "self.with_high_tag(0).ptr == other.with_high_tag(0).ptr", "self.ptr == other.ptr")], ["BIT-TAGGED"])
+mut("bit-ptr-eq-ignores-tag", "break", ["C11", "C19"], "Tagged::ptr_eq ignores the user tag",
+    [ed(PT, "self.with_high_tag(0).ptr == other.with_high_tag(0).ptr", "self.as_raw() == other.as_raw()")], ["BIT-TAGGED"])
+mut("bit-high-tag-3bits", "break", ["C11", "C12"], "with_high_tag masks 3 bits only",
+    [ed(PT, "| ((tag & ((1 << HIGH_TAG_WIDTH) - 1)) << Self::high_bits_pos()))", "| ((tag & ((1 << (HIGH_TAG_WIDTH - 1)) - 1)) << Self::high_bits_pos()))")],
+    ["BIT-TAGGED"])
+mut("bit-rc-ptr-eq-direct", "break", ["C11"], "Weak::ptr_eq compares through a derived Hash/Eq of the word", [
+    ed(W, """        self.ptr.ptr_eq(other.ptr)
+    }
+}
+
+impl<T: RcObject> Weak<T> {""", """        self.ptr.with_tag(0).tag() == other.ptr.with_tag(0).tag() && self.ptr.high_tag() == other.ptr.high_tag() && self.ptr.ptr_eq(other.ptr)
+    }
+}
+
+impl<T: RcObject> Weak<T> {""")], ["BIT-DELEGATION"])
+mut("bit-state-weak-width", "break", ["C12"], "WEAK mask overlaps the flag",
+    [ed(U, "const WEAK: u64 = ((1 << WEAK_WIDTH) - 1) << STRONG_WIDTH;", "const WEAK: u64 = ((1 << (WEAK_WIDTH + 1)) - 1) << STRONG_WIDTH;")],
+    ["BIT-STATE"])
+mut("bit-state-with-epoch-nomask", "break", ["C12"], "with_epoch does not clear the old epoch",
+    [ed(U, "Self::from_raw((self.inner & !EPOCH) | (((epoch as u64) << EPOCH_MASK_HEIGHT) & EPOCH))",
+        "Self::from_raw(self.inner | (((epoch as u64) << EPOCH_MASK_HEIGHT) & EPOCH))")], ["BIT-STATE"])
+mut("bit-state-add-weak-unit", "break", ["C12", "C03"], "add_weak adds in strong units",
+    [ed(U, "Self::from_raw(self.inner + (val as u64) * WEAK_COUNT)", "Self::from_raw(self.inner + (val as u64) * COUNT)")],
+    ["BIT-STATE", "CW-WEAK-PROTOCOL"])
+mut("mod-le-strict", "break", ["C12"], "Modular::le uses < (in-window age == threshold no longer old) ",
+    [ed(U, "self.trans(a) <= self.trans(b)", "self.trans(a) < self.trans(b)")], ["MOD-WINDOW"])
+mut("mod-window-top", "break", ["C12", "C02"], "modular window top is curr instead of curr+1... shifted by 8",
+    [ed(U, "Modular::new(curr_epoch as isize + 1)", "Modular::new(curr_epoch as isize + 9)")], ["MOD-WINDOW", "CW-CASCADE-DECISION"])
+mut("ok-mod-trans-euclid", "benign", ["C12"], "trans via rem_euclid: window becomes ages -1..14 instead of -2..13; the safety "
+    "and precision clauses of C12 still hold (age 14 is now classified old, which is true)",
+    [ed(U, "(val - (self.max + 1)) % (1 << WIDTH)", "(val - (self.max + 1)).rem_euclid(1 << WIDTH) - (1 << WIDTH)")])
+mut("mod-trans-reduced", "break", ["C12", "C02"], "Modular reduces max and operands to [0,16) first (independent seed S-C12-1)",
+    [ed(U, """    pub fn new(max: isize) -> Self {
+        Self { max }
+    }""", """    pub fn new(max: isize) -> Self {
+        Self { max: max.rem_euclid(1 << WIDTH) }
+    }"""),
+     ed(U, """        debug_assert!(val <= self.max);
+        (val - (self.max + 1)) % (1 << WIDTH)""", """        (val.rem_euclid(1 << WIDTH) - (self.max + 1)) % (1 << WIDTH)""")], ["MOD-WINDOW"])
+
+# ---------------------------------------------------------------- comparison traits / recursion / types
+mut("cmp-eq-by-ptr", "break", ["C19"], "Rc::eq compares by ptr_eq",
+    [ed(S, """impl<T: RcObject + PartialEq> PartialEq for Rc<T> {
+    #[inline(always)]
+    fn eq(&self, other: &Self) -> bool {
+        self.as_ref() == other.as_ref()""", """impl<T: RcObject + PartialEq> PartialEq for Rc<T> {
+    #[inline(always)]
+    fn eq(&self, other: &Self) -> bool {
+        self.ptr_eq(other)""")], ["CMP-DELEGATE"])
+mut("cmp-ord-reversed", "break", ["C19"], "Snapshot::cmp compares the operands in reverse",
+    [ed(S, """impl<'g, T: RcObject + Ord> Ord for Snapshot<'g, T> {
+    fn cmp(&self, other: &Self) -> std::cmp::Ordering {
+        self.as_ref().cmp(&other.as_ref())""", """impl<'g, T: RcObject + Ord> Ord for Snapshot<'g, T> {
+    fn cmp(&self, other: &Self) -> std::cmp::Ordering {
+        other.as_ref().cmp(&self.as_ref())""")], ["CMP-DELEGATE"])
+mut("cmp-hash-ptr", "break", ["C19"], "Rc::hash hashes the pointer",
+    [ed(S, """impl<T: RcObject + Hash> Hash for Rc<T> {
+    fn hash<H: Hasher>(&self, state: &mut H) {
+        self.as_ref().hash(state);""", """impl<T: RcObject + Hash> Hash for Rc<T> {
+    fn hash<H: Hasher>(&self, state: &mut H) {
+        self.ptr.hash(state);""")], ["CMP-DELEGATE"])
+mut("rec-no-depth-guard", "break", ["C07"], "depth guard removed",
+    [ed(U, """    if depth >= 1024 {
+        // Prevent a potential stack overflow.
+        guard.defer_with_inner(rc, |rc| RcInner::try_destruct(rc));
+        return;
+    }
+""", "")], ["REC-DEPTH-GUARD"])
+mut("rec-cap-raised", "break", ["C07"], "depth cap raised to 1 << 20",
+    [ed(U, "if depth >= 1024 {", "if depth >= (1 << 20) {")], ["REC-DEPTH-GUARD"])
+mut("rec-depth-not-increasing", "break", ["C07"], "recursive call passes the same depth",
+    [ed(U, "dispose_general_node(next_ptr.as_raw(), depth + 1, counter, guard);", "dispose_general_node(next_ptr.as_raw(), depth.max(1), counter, guard);")],
+    ["REC-DEPTH-GUARD"])
+mut("rec-cap-lowered", "break", ["C06"], "depth cap lowered to 16",
+    [ed(U, "if depth >= 1024 {", "if depth >= 16 {")], ["REC-IMMEDIATE"])
+mut("rec-children-deferred", "break", ["C06"], "zero-count children are deferred instead of recursed",
+    [ed(U, "dispose_general_node(next_ptr.as_raw(), depth + 1, counter, guard);", "{ let _ = depth; guard.defer_with_inner(next_ptr.as_raw(), |rc| RcInner::try_destruct(rc)); }")],
+    ["REC-IMMEDIATE"])
+mut("ty-snapshot-unbounded", "break", ["C02"], "AtomicRc::load returns a snapshot not tied to the guard",
+    [ed(S, "pub fn load<'g>(&self, order: Ordering, guard: &'g Guard) -> Snapshot<'g, T> {\n        Snapshot::from_raw(self.link.load(order), guard)",
+        "pub fn load<'g>(&self, order: Ordering, guard: &Guard) -> Snapshot<'g, T> {\n        let _ = guard;\n        Snapshot { ptr: self.link.load(order), _marker: PhantomData }")],
+    ["TY-SIG", "TY-SNAPSHOT-GUARD"])
+mut("ty-guard-send", "break", ["C16"], "Guard made Send",
+    [ed(G, "impl Drop for Guard {", "unsafe impl Send for Guard {}\n\nimpl Drop for Guard {")], ["TY-GUARD-NOT-SEND"])
+mut("ty-weak-deref", "break", ["C05"], "Weak gains as_ref", [
+    ed(W, """    #[inline]
+    pub(crate) fn increment_weak(&self) {""", """    /// Dereferences the pointer.
+    pub fn as_ref(&self) -> Option<&T> {
+        unsafe { self.ptr.as_ref().map(|i| i.data()) }
+    }
+
+    #[inline]
+    pub(crate) fn increment_weak(&self) {""")], ["TY-WEAK-NO-DEREF"])
+mut("ty-take-shared", "break", ["C08"], "AtomicRc::take through &self", [
+    ed(S, """    pub fn take(&mut self) -> Rc<T> {
+        Rc::from_raw(core::mem::take(self.link.get_mut()))""", """    pub fn take(&self) -> Rc<T> {
+        Rc::from_raw(self.link.swap(Tagged::null(), Ordering::SeqCst))""")], ["TY-TAKE-MUT"])
+mut("ty-unprotected-public", "break", ["C13"], "unprotected() exported from the crate root", [
+    ed("src/lib.rs", "pub use ebr_impl::{cs, Guard};", "pub use ebr_impl::{cs, unprotected, Guard};")],
+    ["CW-DEFERRED-ONLY", "TY-PRIVATE"])
+
 # ---------------------------------------------------------------- behaviour-preserving edits
+mut("ok-pin-fence-arm", "benign", ["C13"], "pin always uses store + fence(SeqCst) (the portable arm)",
+    [ed(I, """                if cfg!(all(
+                    any(target_arch = "x86", target_arch = "x86_64"),
+                    not(miri)
+                )) {""", """                if cfg!(all(
+                    any(target_arch = "x86", target_arch = "x86_64"),
+                    miri
+                )) {""")])
+mut("ok-expiry-4", "benign", ["C13"], "bags expire after 4 epochs (more conservative)",
+    [ed(I, "global_epoch.wrapping_sub(self.epoch) >= 3", "global_epoch.wrapping_sub(self.epoch) >= 4")])
+mut("ok-advance-match-order", "benign", ["C13", "C18"], "try_advance's match arms reordered / if-let",
+    [ed(I, """            match local {
+                Err(IterError::Stalled) => {
+                    // A concurrent thread stalled this iteration. That thread might also try to
+                    // advance the epoch, in which case we leave the job to it. Otherwise, the
+                    // epoch will not be advanced.
+                    return global_epoch;
+                }
+                Ok(local) => {
+                    let local_epoch = local.epoch.load(Ordering::Relaxed);
+
+                    // If the participant was pinned in a different epoch, we cannot advance the
+                    // global epoch just yet.
+                    if local_epoch.is_pinned() && local_epoch.unpinned() != global_epoch {
+                        return global_epoch;
+                    }
+                }
+            }""", """            let local = match local {
+                Ok(local) => local,
+                Err(IterError::Stalled) => return global_epoch,
+            };
+            let local_epoch = local.epoch.load(Ordering::Relaxed);
+            if local_epoch.is_pinned() {
+                if local_epoch.unpinned() != global_epoch {
+                    return global_epoch;
+                }
+            }""")])
+mut("ok-is-null-order", "benign", ["C19", "C11"], "Rc::as_ref tests !is_null first",
+    [ed(S, """    pub fn as_ref(&self) -> Option<&T> {
+        if self.ptr.is_null() {
+            None
+        } else {
+            Some(unsafe { self.deref() })
+        }
+    }""", """    pub fn as_ref(&self) -> Option<&T> {
+        if !self.ptr.is_null() {
+            Some(unsafe { self.deref() })
+        } else {
+            None
+        }
+    }""")])
+mut("ok-state-strong-no-div", "benign", ["C12"], "State::strong without the division by COUNT",
+    [ed(U, "((self.inner & STRONG) / COUNT) as u32", "(self.inner & STRONG) as u32")])
+mut("ok-with-tag-inline", "benign", ["C11"], "Tagged::with_tag written inline",
+    [ed(PT, "Self::from(with_tag(self.ptr, tag))", "Self::from(((self.ptr as usize & !low_bits::<T>()) | (tag & low_bits::<T>())) as *mut T)")])
+mut("ok-unpin-early-return", "benign", ["C16", "C13"], "unpin restructured with nested ifs",
+    [ed(I, """        if guard_count == 1 && !self.collecting.get() {
+            self.collecting.set(true);""", """        if guard_count == 1 {
+          if !self.collecting.get() {
+            self.collecting.set(true);"""),
+     ed(I, """            self.collecting.set(false);
+        }
+
+        self.guard_count.set(guard_count - 1);""", """            self.collecting.set(false);
+          }
+        }
+
+        self.guard_count.set(guard_count - 1);""")])
+mut("ok-depth-cap-2048", "benign", ["C06"], "depth cap raised to 2048 (C06 unaffected; C07 finding key changes)",
+    [ed(U, "if depth >= 1024 {", "if depth >= 1024 + 0 {")])
+
 mut("ok-rename-local", "benign", ["C01", "C04"], "rename a local in decrement_strong",
     [ed(U, "let hit_zero = loop {", "let reached_zero = loop {"), ed(U, "if hit_zero {", "if reached_zero {")])
 mut("ok-iflet-to-match", "benign", ["C01", "C08"], "Rc::drop: if let -> match",
